@@ -107,7 +107,58 @@ def normalised(fn: ast.FunctionDef | None) -> tuple[str, list[str], list[str]]:
     return ast.unparse(out), b.keys, b.modes
 
 
+def _whiles(fn: ast.FunctionDef | None) -> list[ast.While]:
+    return [] if fn is None else [n for n in ast.walk(fn) if isinstance(n, ast.While)]
+
+
+def _param_check(fn: ast.FunctionDef | None) -> str:
+    """_parameter_names: against what the candidate name of a repeated argument is checked (the one while test)."""
+    ws = _whiles(fn)
+    if len(ws) != 1:
+        return "PnUnknown"
+    return {
+        "name in names or (name != arg and name in args)": "PnAllArgs",
+        "name in names": "PnEmittedOnly",
+    }.get(ast.unparse(ws[0].test), "PnUnknown")
+
+
+def _interchange(tree: ast.Module) -> str:
+    """_register_fn: when a new definition may share the name of a registered one (the one while test)."""
+    ws = _whiles(_find(tree, "_register_fn"))
+    if len(ws) != 1:
+        return "IcUnknown"
+    test = ast.unparse(ws[0].test)
+    if test == "name in functions and _positional_fn(*functions[name]) != positional":
+        return "IcPositional"
+    helper = _find(tree, "_interchangeable")
+    if helper is not None and test == "name in functions and (not _interchangeable(functions[name], (expr, args)))":
+        body = ast.unparse(_strip_doc(helper)).split("\n", 1)[1]
+        if body == "    if a[0] == b[0]:\n        return True\n    return _positional_fn(*a) == _positional_fn(*b)":
+            return "IcSubstFirst"
+    return "IcUnknown"
+
+
+def _rename(fn: ast.FunctionDef | None) -> str:
+    """_fn_to_symbolic_repr: who puts the model names into the expression."""
+    if fn is None:
+        return "RnUnknown"
+    calls = [n for n in ast.walk(fn) if isinstance(n, ast.Call)]
+    subs = [c for c in calls if isinstance(c.func, ast.Attribute) and c.func.attr in ("subs", "xreplace", "replace")]
+    f2s = [c for c in calls if isinstance(c.func, ast.Name) and c.func.id == "fn_to_sympy"]
+    if len(f2s) != 1:
+        return "RnUnknown"
+    kws = {k.arg: ast.unparse(k.value) for k in f2s[0].keywords}
+    if not subs and kws.get("model_args") == "args" and any(
+        isinstance(n, ast.Assign) and ast.unparse(n) == "args = cast(list, list_of_symbols(model_args))" for n in ast.walk(fn)
+    ):
+        return "RnDelegated"
+    if "model_args" not in kws and any(c.func.attr == "subs" for c in subs):
+        return "RnSequential"
+    return "RnUnknown"
+
+
 FRESH_HELPERS = ("_positional_fn", "_register_fn", "_parameter_names")
+EMIT_HELPERS = ("_number_literal", "_unit_literal")  # fixes/C11-emitted-numbers-imports-units.diff
 
 
 def extract(repo=None) -> tuple[dict[str, str], dict[str, str]]:
@@ -122,6 +173,10 @@ def extract(repo=None) -> tuple[dict[str, str], dict[str, str]]:
         "register": "RegUnknown",
         "codegen_shape": "false",
         "symrepr_shape": "false",
+        "param_check": "PnUnknown",
+        "interchange": "IcUnknown",
+        "rename": "RnUnknown",
+        "emit": "EmUnknown",
     }
     texts: dict[str, str] = {}
     try:
@@ -139,9 +194,9 @@ def extract(repo=None) -> tuple[dict[str, str], dict[str, str]]:
         ("_to_symbolic_repr", t1),
         ("generate_mxlpy_code", t1),
         ("sympy_to_python_fn", t2),
-        *((h, t1) for h in FRESH_HELPERS),
+        *((h, t1) for h in FRESH_HELPERS + EMIT_HELPERS),
     ):
-        if name in FRESH_HELPERS:  # pinned verbatim: no key expression is blanked out inside the helpers
+        if name in FRESH_HELPERS + EMIT_HELPERS:  # pinned verbatim: no key expression is blanked out inside the helpers
             fn = _find(tree, name)
             texts[name], keys[name] = ("<missing>" if fn is None else ast.unparse(_strip_doc(fn))), []
             continue
@@ -160,20 +215,31 @@ def extract(repo=None) -> tuple[dict[str, str], dict[str, str]]:
         from harness import c11_shapes
 
         exp_all = {"RegOverwrite": c11_shapes.SHAPES, "RegFresh": c11_shapes.SHAPES_FRESH}
+        exp_emit = getattr(c11_shapes, "SHAPES_EMIT", {})
     except Exception:  # noqa: BLE001
         exp_all = {}
+        exp_emit = {}
     # the way of storing: all five writes the same way; the helper functions exist exactly in the fresh form
     if len(modes) == 5 and set(modes) == {"overwrite"} and all(texts[h] == "<missing>" for h in FRESH_HELPERS):
         facts["register"] = "RegOverwrite"
     elif len(modes) == 5 and set(modes) == {"fresh"}:
         facts["register"] = "RegFresh"
+    facts["param_check"] = _param_check(_find(t1, "_parameter_names"))
+    facts["interchange"] = _interchange(t1)
+    facts["rename"] = _rename(_find(t1, "_fn_to_symbolic_repr"))
     exp = exp_all.get(facts["register"], {})
     cg = ["_codegen_variable", "_codegen_parameter", "generate_mxlpy_code_from_symbolic_repr", "sympy_to_python_fn"]
     if facts["register"] == "RegFresh":
         cg += list(FRESH_HELPERS)
     sr = ("_fn_to_symbolic_repr", "_to_symbolic_repr", "generate_mxlpy_code")
-    if exp and all(texts[n] == exp.get(n) for n in cg):
+    # the text around the definitions: as in the snapshot (numbers / units through SymPy's printer, no import
+    # scan; the two helpers of the repair absent) or exactly the repaired one
+    if exp and all(texts[n] == exp.get(n) for n in cg) and all(texts[h] == "<missing>" for h in EMIT_HELPERS):
         facts["codegen_shape"] = "true"
+        facts["emit"] = "EmSympy15"
+    elif facts["register"] == "RegFresh" and exp_emit and all(texts[n] == exp_emit.get(n) for n in [*cg, *EMIT_HELPERS]):
+        facts["codegen_shape"] = "true"
+        facts["emit"] = "EmExact"
     if exp and all(texts[n] == exp.get(n) for n in sr):
         facts["symrepr_shape"] = "true"
     return facts, texts
